@@ -129,4 +129,10 @@ def fingerprint_url(url, unsplit=True, strip_suffix=False, platform_aware=False)
     if not unsplit:
         return result
 
-    return urlunsplit(result)[2:]
+    result = urlunsplit(result)
+
+    # NOTE: the string starts with "//", unless there is no host
+    if result.startswith("//"):
+        result = result[2:]
+
+    return result
